@@ -32,6 +32,34 @@ class Acc:
         self.samples = []
         self.violations = {}  # key -> {"count": n, "what": str, "witnesses": [..]}
         self.harness_errors = []
+        self.journal_path = None
+
+    def journal(self, obj):
+        """Remember what is about to be executed, so that a native crash (GLPK abort,
+        segfault) or a hang can be attributed to a case by the parent process."""
+        if self.journal_path:
+            try:
+                with open(self.journal_path, "w") as f:
+                    json.dump(obj, f, default=repr)
+            except Exception:
+                pass
+
+    def checkpoint(self, every_s=3.0):
+        """Dump what was observed so far (so a later native crash loses little)."""
+        import time
+
+        now = time.time()
+        if self.journal_path and now - getattr(self, "_last_ckpt", 0) > every_s:
+            self._last_ckpt = now
+            p = self.journal_path.replace(".journal", ".ckpt")
+            try:
+                with open(p + ".tmp", "w") as f:
+                    json.dump(self.to_json(), f, default=repr)
+                import os
+
+                os.replace(p + ".tmp", p)
+            except Exception:
+                pass
 
     # -- counting ---------------------------------------------------------
     def ev(self, n=1):
